@@ -33,6 +33,10 @@ type ATEpisode struct {
 	TCRules  []simtc.Rule `json:"tc_rules,omitempty"`
 	// Foreign statements executed by a bare connection after the local commits and before phase two (C09)
 	Foreign []ATStmt `json:"foreign,omitempty"`
+	// RaceForeign: the foreign statements are not finished before phase two but
+	// issued by an actor of their own, which the scheduler interleaves with the
+	// statements of the rollback transaction
+	RaceForeign bool `json:"race_foreign,omitempty"`
 	// Redeliver: extra BranchRollback deliveries after the first round (C10)
 	Redeliver int `json:"redeliver,omitempty"`
 	// P2Faults (non-nil): database faults armed when phase one is over, counted from there (C10)
@@ -334,7 +338,16 @@ func (r *atRun) runEpisode(idx int, ep *ATEpisode) *episodeObs {
 			if r.foreignGen != nil {
 				foreign = r.foreignGen(o.jstart)
 			}
-			if len(foreign) > 0 {
+			if len(foreign) > 0 && ep.RaceForeign {
+				stmts := foreign
+				sim.Go("at-foreign-racer", func() {
+					for k, st := range stmts {
+						sim.Park(fmt.Sprintf("at-foreign-race|%02d", k), "foreign writer (racing phase two)")
+						_, err := w.Bare.Exec(st.SQL, goArgs(st.Args)...)
+						sim.Logf("FOREIGN (racing) %s %v -> %v", st.SQL, st.Args, err)
+					}
+				})
+			} else if len(foreign) > 0 {
 				// a foreign writer (no global transaction) touches rows after the local commits
 				sim.Park("at-foreign", "foreign writer")
 				for _, st := range foreign {
@@ -1089,6 +1102,7 @@ func genATPlanTweaked(seed uint64, tier, mode string, tweak func(g *simkit.Gen, 
 	}
 	p.Opts.Params = g.Prob(0.8)
 	p.Opts.DedicatedConn = g.Prob(0.15)
+	p.Opts.UniqueIndex = g.Prob(0.25)
 	if g.Prob(0.06) {
 		// preset: undo logs dominated by one high-entropy value, under a
 		// compressor (a block compressor refuses what it cannot shrink)
@@ -1175,6 +1189,18 @@ func runATGeneric(t *testing.T, prop, mode string, seed uint64, planJSON []byte,
 	if plan == nil {
 		return res
 	}
+	if prop == "C01" && planJSON == nil {
+		// "any failure to undo is reported as a failure, never as success": some
+		// rolled-back episodes meet a database error at one statement of the
+		// rollback transaction (the coordinator model delivers the rollback again)
+		g := simkit.NewGen(seed ^ 0x5ca1ab1e)
+		for i := range plan.Episodes {
+			if plan.Episodes[i].Outcome == "rollback" && g.Prob(0.2) {
+				cl := simkit.Pick(g, []string{"update", "update", "insert", "delete", "delete-undo", "commit", "select-for-update-undo"})
+				plan.Episodes[i].P2Faults = []DBFault{{Class: cl, Nth: g.Range(1, 2), Kind: "error", Num: 1205}}
+			}
+		}
+	}
 	res.Harness = runBubble(t, func(t *testing.T) {
 		r := setupAT(seed, tape, plan, prop, res)
 		if r == nil {
@@ -1189,7 +1215,7 @@ func runATGeneric(t *testing.T, prop, mode string, seed uint64, planJSON []byte,
 			}
 			r.checkPhaseOne(o)
 			if ep.Outcome == "rollback" {
-				r.checkC01(o, len(ep.DBFaults) == 0 && len(ep.TCRules) == 0)
+				r.checkC01(o, len(ep.DBFaults) == 0 && len(ep.TCRules) == 0 && len(ep.P2Faults) == 0)
 			}
 			r.recordState(o)
 			if len(sim.Violations()) > 0 || !o.done {
